@@ -4,7 +4,7 @@ import re
 from analysis import (Prov, Guards, fmt, fmt_short, walk, roots, short, comparison, find_calls, callee_matches,
                       must_pass, named_switches, normalised_cmp, cmp_intervals, const_int_of)
 from facts import AnchorError, strip_closure
-from harness import Rule
+from harness import Rule, guarded
 from c01 import bool_pass_edges
 import queryx
 import c13
@@ -231,4 +231,5 @@ def r4(ctx, tables):
 def run(ctx):
     tables = {w: queryx.extract(ctx.facts, w) for w in ("closest", "predicate")}
     ctx.query_tables = tables
-    return [r1(ctx, tables), r2(ctx, tables), r3(ctx), r4(ctx, tables)]
+    G = lambda l, f, *a: guarded("C09." + l, f, ctx, *a)
+    return G("R1", r1, tables) + G("R2", r2, tables) + G("R3", r3) + G("R4", r4, tables)
